@@ -198,7 +198,8 @@ class EVQECircuitLayer:
         """
         circuit = QuantumCircuit(self.n_qubits, name=f"layer_{layer_id}")
 
-        layer_prefix = f"layer{layer_id}_"
+        # The layer id is zero padded, so that the alphabetical parameter ordering matches the layer ordering
+        layer_prefix = f"layer{layer_id:09d}_"
         for gate in self.gates:
             gate.apply_gate(circuit=circuit, parameter_name_prefix=layer_prefix)
 
